@@ -1,4 +1,5 @@
 import IofloModel.Props.C05
+import IofloModel.Props.C08
 import IofloModel.Model.FloProg
 /-!
 # C09 — auxiliary framers live exactly as long as their main frame
@@ -8,10 +9,13 @@ Model: `Model/Flo.lean` — `frameEnter` / `frameExit` / `frameRecur` / `segue` 
 `aux.main = None` for original auxiliaries), `Act.done` (= `CompleteDone`), and in `Model/FloProg.lean` the
 done-conditions `CNeed.done` (NeedDone) and `CNeed.auxAny/auxAll/auxNamed` (NeedDoneAux).
 
-The single-owner part of the property is false of the code (defect D3d: `Framer.checkEnter` tests the ownership of
-all frames of `enters` before any of them is entered, so two frames of one outline naming the same original
-auxiliary are both entered): `C09_single_owner_full` with `C09_counterexample_D3d`; what the check does
-guarantee is `C08_check_enter` (availability *at check time*).
+The single-owner part of the property was false of the original code (defect D3d: `Framer.checkEnter` tested the
+ownership of all frames of `enters` before any of them was entered, so two frames of one outline naming the same
+original auxiliary were both entered).  The model follows the repaired code (fixes/D3d-…patch: the list
+`claimed` threaded through one check): `C09_single_owner_checked` (such an entry is refused),
+`C09_fixed_D3d` (the former counterexample program: its start is refused, nothing is entered) and
+`C09_owner_invariant` (along every run of a well-formed program an original auxiliary that is not done belongs
+to the frame that names it).
 -/
 namespace Ioflo.Flo
 open Ioflo.Outline (Fid)
@@ -37,7 +41,7 @@ theorem C09_aux_exited_with_main (f : Fid) (s : St W) :
     frameExit P sem lo f s =
       (match forEach (deactivateAux P lo) (P.frame f).auxes (noteExit f s) with
        | .error e => .error e
-       | .ok s1 => forEach (deactivize P lo) (suspAuxes (P.frame f).preacts)
+       | .ok s1 => forEach (deactivize P lo f) (suspAuxes (P.frame f).preacts)
                      (runActs sem .exit f (P.frame f).exacts s1)) := rfl
 
 theorem C09_deactivateAux (aux : Frid) (s : St W) :
@@ -152,29 +156,48 @@ def run : Except Err (St Unit) := runSteps prog sem1 (opsAt prog sem1 2) [(0, .s
 
 end CexD3d
 
-/-- **single owner, full statement**: along every run, `Frame.enter` is never called on a frame that is entered
-and `Frame.exit` never on one that is not (so in particular an auxiliary is never entered under a second frame
-while it is entered under a first). -/
-def C09_single_owner_full : Prop :=
-  ∀ (P : Prog) (sem : Sem Unit) (n : Nat) (steps : List (Frid × Control × Nat)) (s0 s : St Unit),
-    Fresh s0 → s0.dbl = false → (∀ f, s0.ent f = false) →
-    runSteps P sem (opsAt P sem n) steps s0 = .ok s → s.dbl = false
+/-- **single owner (check).**  An entry (transition or start) whose list of frames to enter contains two frames
+that name the same original auxiliary is refused by `Framer.checkEnter` — at every nesting depth, whatever
+the state (fix D3d; the general statement, also for nested auxiliaries, is `C08_claims_distinct`). -/
+theorem C09_single_owner_checked (n : Nat) {enters exits : List Fid} {s : St W} {l1 l2 l3 : List Fid} {f g : Fid}
+    {a : Frid} (he : enters = l1 ++ f :: l2 ++ g :: l3) (ha : (P.framer a).original = true)
+    (hf : a ∈ (P.frame f).auxes) (hg : a ∈ (P.frame g).auxes) :
+    checkEnter P sem (opsAt P sem n) enters exits s ≠ .ok true :=
+  C08_shared_aux_refused P sem n he ha hf hg
 
-/-- starting `CexD3d.prog` enters the auxiliary's frame twice: both `A` and `B` pass the ownership test
-(`aux.main` is still `None` when `checkEnter` runs), then `A.enter` and `B.enter` both call `aux.enterAll()` -/
-theorem C09_counterexample_D3d : ¬ C09_single_owner_full := by
-  intro h
-  have hfacts : (match CexD3d.run with
-                 | .ok s => s.dbl && s.reenter && ((s.fr 1).main == some 1)
-                 | .error _ => false) = true := by decide
-  cases hrun : CexD3d.run with
-  | error e => rw [hrun] at hfacts; cases hfacts
-  | ok s =>
-    rw [hrun] at hfacts
-    simp only [Bool.and_eq_true] at hfacts
-    have := h CexD3d.prog CexD3d.sem1 2 [(0, .start, 0)] CexD3d.init s
-      (by intro i; simp [CexD3d.init, St.fr, isUp]) rfl (fun _ => rfl) hrun
-    rw [this] at hfacts
-    exact absurd hfacts.1.1 (by simp)
+/-- the program that showed D3d (frames A > B both with the plain auxiliary 1): the start is refused now, the
+framer stays stopped and inactive, the auxiliary is entered by nobody (`dbl`, `reenter` stay down) -/
+theorem C09_fixed_D3d :
+    (match CexD3d.run with
+     | .ok s => !s.dbl && !s.reenter && ((s.fr 1).main == none) && (s.fr 1).done && (s.fr 0).active.isNone &&
+                ((s.fr 0).status == .stopped) && !s.ent 0 && !s.ent 1 && !s.ent 2
+     | .error _ => false) = true := by decide
+
+/-- **single owner (invariant).**  Along every run of a well-formed program from a fresh state — whatever the
+ghost flags — an original auxiliary that is entered (not done) belongs to the frame whose `aux` clause names
+it: `aux.main is frame`.  (This is what makes the ownership tests of the repaired `Suspender.action` /
+`deactivize` pass for the owner, `C10_running_is_owned`.) -/
+theorem C09_owner_invariant {P : Prog} {rank : Frid → Nat} (wf : WF P rank) (sem : Sem W) (n : Nat)
+    (steps : List (Frid × Control × Nat)) (htop : ∀ x, x ∈ steps → Top P x.1) {s0 s : St W} (h0 : Fresh s0)
+    (hrun : runSteps P sem (opsAt P sem n) steps s0 = .ok s) :
+    ∀ f x, x ∈ kids P f → (P.framer x).original = true → (s.fr x).done = false → (s.fr x).main = some f := by
+  have hlo := opsAt_spec wf sem n
+  have key : ∀ (l : List (Frid × Control × Nat)) (a b : St W), (∀ x, x ∈ l → Top P x.1) → Owned P a →
+      runSteps P sem (opsAt P sem n) l a = .ok b → Owned P b := by
+    intro l
+    induction l with
+    | nil => intro a b _ ho h; simp only [runSteps, Except.ok.injEq] at h; rw [← h]; exact ho
+    | cons x xs ih =>
+      intro a b hta ho h
+      obtain ⟨i, c, t⟩ := x
+      simp only [runSteps] at h
+      cases h1 : framerStep P sem (opsAt P sem n) i c { a with now := t } with
+      | error e => simp [h1] at h
+      | ok a1 =>
+        simp only [h1] at h
+        have ho' : Owned P { a with now := t } := ⟨ho.actives, ho.active, ho.main⟩
+        have r := framerStep_fo wf hlo i (hta (i, c, t) (by simp)) c h1 ho'
+        exact ih a1 b (fun y hy => hta y (by simp [hy])) r.1 h
+  exact (key steps s0 s htop (C05_init P h0).owned hrun).main
 
 end Ioflo.Flo
